@@ -144,7 +144,13 @@ func (s *ManagedServer) dequeueSave(ctx context.Context) {
 		select {
 		case <-s.saveQueue:
 		case <-ctx.Done():
-			return
+			// A save job queued before the cancellation may still be pending.
+			// Exit only if there is none.
+			select {
+			case <-s.saveQueue:
+			default:
+				return
+			}
 		}
 
 		// Wait for cooldown.
